@@ -23,7 +23,7 @@ FAIL_FILES = {
     "terminator-brace": {"f1": ("refs.bib", "bibtex", "code"), "f2": ("view.hbs", "handlebars", "code"), "f3": ("sub/page.jinja2", "jinja", "code")},
 }
 TERMINATOR_HOLDER = "Jane */ Doe *) Inc."
-TERMINATOR_HOLDERS = {"terminator": TERMINATOR_HOLDER, "terminator-brace": "Jane {Doe} #} and --}} Ltd {0}"}
+TERMINATOR_HOLDERS = {"terminator": TERMINATOR_HOLDER, "terminator-brace": "Jane {Doe} #} and --}} Ltd"}
 
 
 def build(ctx, rnd, gens):
